@@ -330,6 +330,10 @@ impl Sut for GCounter<A> {
     }
     fn reads(&self, _a: &mut Args, t: &mut Out) {
         t.call("gcounter.read", &[sx(self), self.read().to_string()]);
+    }
+    fn extra(&self, _o: &Self, a: &mut Args, t: &mut Out) {
+        // validate_merge accepts every pair of states (C17)
+        t.call("gcounter.validate_merge", &[sx(self), sx(_o), vm_sx(self.validate_merge(_o))]);
         // totals near 2^64 on three or four actors: the sum exceeds 64 bits more than once
         {
             let mut big = GCounter::<A>::new();
@@ -343,13 +347,8 @@ impl Sut for GCounter<A> {
                 pn.apply(pn.inc_many(actor, u64::MAX - 2 * actor));
             }
             pn.apply(pn.dec_many(1, u64::MAX - 7));
-            let pnv = serde_json::to_value(&pn).unwrap();
-            t.call("pncounter.bigread", &[crate::sx(&pnv["p"]), crate::sx(&pnv["n"]), pn.read().to_string()]);
+            t.call("pncounter.bigread", &[sx(&pn), pn.read().to_string()]);
         }
-    }
-    fn extra(&self, _o: &Self, a: &mut Args, t: &mut Out) {
-        // validate_merge accepts every pair of states (C17)
-        t.call("gcounter.validate_merge", &[sx(self), sx(_o), vm_sx(self.validate_merge(_o))]);
         let c = rand_clock(a, false);
         let mut r = self.clone();
         r.reset_remove(&c);
